@@ -65,6 +65,26 @@ INFO = {
  "C18c": ("transport.go saslAuthenticateRoundTrip: ErrorCode > 0 instead of != 0", "PLAIN over the Transport with handshake v1 and the broker refusing with error code -1: requests are sent on the unauthenticated connection"),
  "C19c": ("listoffset.go (*Client).ListOffsets: the partition error is assigned unconditionally when folding entries", "one call asking two or more offsets of a partition, one sub-request failing and a sibling succeeding: the error is reset to nil"),
  "C20c": ("protocol/decode.go (*decoder).Read guard relaxed to remain == 0 (with a frame-size check added at the entry points)", "a fetch response whose v2 batch length or v0/v1 message size has the sign bit set: slice bounds panic on a Transport goroutine"),
+ "C01d": ("produce.go (*Client).Produce: the partition error is only built when ErrorCode > 0", "a produce request answered with a negative error code (-1 UNKNOWN_SERVER_ERROR), nothing appended: ProduceResponse.Error stays nil, the Writer reports the batch written and does not retry"),
+ "C02d": ("read.go readVarInt: accumulator and shift declared inside the refill loop", "a multi-byte varint (timestamp/offset delta >= 64, key/value/header length >= 64) whose bytes lie on either side of a bufio refill: the fetch response arriving in two pieces split inside it, or a compressed batch at a particular alignment of its 16-byte window"),
+ "C03d": ("reader.go (*reader).run: `conn, offset, err := r.initialize(...)` shadows the loop's offset", "a fetch fault in the middle of an assignment (NotLeaderForPartition, UnknownTopicOrPartition, dropped connection): the partition reader re-initialises from the offset it was started with; with StartOffset=LastOffset records are skipped and covered by the next commit, with an absolute start delivery rewinds and the commit regresses"),
+ "C04d": ("protocol/decode.go (*decoder).read: the copy buffer for values above maxPrealloc starts with 16384 zero bytes", "any non-record string or bytes field longer than 16384 bytes (16385 fails, 16384 does not): the decoded value has 16384 zero bytes prepended, nothing else changes"),
+ "C05d": ("batch.go (*Batch).close: batch.msgs.decompressed is no longer cleared after releaseBuffer", "a Batch with a real message-set reader closed twice, then two Conns reading compressed batches at the same time: they share one pooled decompression buffer and one returns the other's records"),
+ "C06d": ("protocol/buffer.go (*pageBuffer).refTo: no page reference is taken for an empty range", "a Fetch response through the Transport with an empty non-null key or value, its record closed while a neighbour on the same page is still unread, then any other round trip: the neighbour's bytes are overwritten"),
+ "C07d": ("writer.go (*partitionWriter).writeMessages: exactly-full batches are queued after the whole call was assigned, rolled-over ones immediately", "BatchSize and BatchBytes both acting within one WriteMessages call for one partition: a batch rolled over by bytes is produced before an earlier batch that filled exactly"),
+ "C08d": ("writer.go (*partitionWriter).writeMessages: after a byte overflow the next batch is opened with the bare constructor, without the awaitBatch goroutine", "a batch closed by byte overflow whose successor does not fill up: it is never queued, the message is never produced and a synchronous WriteMessages blocks"),
+ "C09d": ("reader.go (*Reader).Close: r.cancel() is called before the mutex is taken and closed is set", "a SetOffset on a started reader (or the first FetchMessage) landing between Close's cancel and its Lock: the newly started partition readers are never cancelled and Close never returns"),
+ "C10d": ("transport.go (*connGroup).releaseConn: g.closed is read before g.mutex is taken", "CloseIdleConnections (or a broker dropped by a metadata refresh) while a request is in flight on a connection of that group: unsynchronised read against the write in closeIdleConns; the connection may be parked in a closed group"),
+ "C11d": ("conn.go (*Conn).do: an error with isTimeout(err) is treated as a transport failure", "a well-formed Produce or ListOffsets response carrying RequestTimedOut (7), then any operation on the same Conn: the connection was closed"),
+ "C12d": ("protocol/protocol.go (ApiKey).SelectVersion: first case compares with minVersion instead of maxVersion", "an API whose client-side minimum is above 0 (ListOffsets v1-v5) against a broker advertising a minimum of 0: the request goes out at the client's lowest version instead of the highest common one"),
+ "C13d": ("writer.go loadCachedPartitions: the cached identity list is grown by copying the old prefix and filling the tail with tail-relative indexes", "one process producing first to a topic with fewer than 128 partitions and later to one with more than the cache holds: the balancers are offered [0..127,0..n-129] and keys are routed to the wrong partitions"),
+ "C14d": ("groupbalancer.go findPartitions: stops scanning at the first partition of another topic once some were found", "a partition listing in which a subscribed topic's partitions are not contiguous: the later ones are assigned to nobody by Range and RoundRobin"),
+ "C15d": ("consumergroup.go (*ConsumerGroup).run: `var backoff` moved out of the loop", "a non-rebalance join/sync failure, any number of good generations, then a generation ended by RebalanceInProgress: the loop waits on an already drained timer channel, never rejoins, and Close sends no LeaveGroup"),
+ "C16d": ("compress/snappy/xerial.go (*xerialReader).readChunk: the 16-byte header is read with one Read instead of a full read", "a framed snappy stream whose source returns fewer than 16 bytes from its first Read (one-byte or half readers, a LimitedReader at the end of a bufio window)"),
+ "C17d": ("read.go readVarInt: the refill-failure path returns the never-assigned named result `remain`", "a v2 record batch read through Conn, cut exactly where a varint is about to be read or inside one: the batch ends with io.EOF, Batch.Close returns nil and the connection is kept"),
+ "C18d": ("protocol/saslauthenticate (*Request).readResp: the short-read check after io.ReadAll is gone", "Transport path, SaslHandshake v0 (raw tokens), PLAIN: the broker announces an answer length and closes before the last byte: authentication is taken to have succeeded and a Metadata request is written"),
+ "C19d": ("offsetfetch.go (*Client).OffsetFetch: one shared slice for every topic's partition indexes", "an OffsetFetch for two or more topics with different partition lists: earlier topics are asked with the later topic's indexes"),
+ "C20d": ("protocol/decode.go checkArrayLength/decodeCompactArray: the count is converted to int before the check", "a flexible response whose compact array count is 2^63+1 or more: negative count passes the check, reflect.MakeSlice panics on a Transport goroutine"),
  "C20": ("protocol/decode.go (*decoder).read: the n < 0 guard is dropped", "flexible versions only: a compact string/bytes length or tagged-field size of 2^63 or more becomes a negative int and reaches make()"),
 }
 
